@@ -125,8 +125,7 @@ pub fn gen_case(rng: &mut Rng) -> Case {
         cfg.added.retain(|(n, _)| !n.eq_ignore_ascii_case("content-length") && !n.eq_ignore_ascii_case("transfer-encoding"));
     }
     if depth > 0 {
-        // inherited content-length is dropped on redirect; an inherited transfer-encoding would make a GET invalid
-        cfg.orig.retain(|(n, _)| !n.eq_ignore_ascii_case("transfer-encoding"));
+        // the framing headers of the original request (content-length, transfer-encoding) are dropped on redirect
         if !needs_body(method) {
             // the hop requests are sent without `despite`: a framing header on them would be invalid (C17)
             cfg.orig.retain(|(n, _)| !n.eq_ignore_ascii_case("content-length"));
